@@ -176,16 +176,18 @@ type failure struct {
 }
 
 type runResult struct {
-	Evals      int
-	Steps      int
-	Forwards   int
-	Nontrivial bool
-	Fails      []failure
-	Nonconf    []string
-	Infra      string
-	Leads      map[string]int
-	Classes    map[string]int
-	Retried    bool
+	Evals               int
+	Steps               int
+	Forwards            int
+	Overlapped          int // forwarded commits executed overlapped with the expiry that follows them in the script
+	OverlapExpiredEarly int
+	Nontrivial          bool
+	Fails               []failure
+	Nonconf             []string
+	Infra               string
+	Leads               map[string]int
+	Classes             map[string]int
+	Retried             bool
 }
 
 func (r *runResult) timing() bool {
@@ -263,6 +265,7 @@ type engine struct {
 	blocked              map[string]bool
 	stepPre              int64
 	granted, interesting bool
+	expiredInFlight      bool
 	lagEntered           chan struct{}
 	httpSeen             int64
 }
@@ -691,6 +694,46 @@ func (e *engine) doStep(st step) {
 		}
 		p := e.prim
 		var r txResult
+		// A forwarded commit followed in the script by the expiry of the lock is executed OVERLAPPED: the
+		// request is held in flight after its header reached the primary, the expiry is attempted, then the
+		// body is let through. The code must order the two as the script does (commit, then expiry): an
+		// expiry that takes effect while the commit is in flight makes the commit one from a former holder.
+		var gate *stallGate
+		if e.i+1 < len(e.sc.H) && e.sc.H[e.i+1].A == "Expire" && (e.sc.H[e.i+1].G.N == "" || e.sc.H[e.i+1].G.N == p) &&
+			(st.G.F == "" || st.G.F == "none") && !st.G.D && e.held[p] != 0 && e.held[p] == e.handleID {
+			gate = tapR.stallNextTx(120)
+			go func(g *stallGate) {
+				select {
+				case <-g.reached:
+				case <-time.After(20 * time.Second):
+					g.release()
+					return
+				}
+				t0 := time.Now()
+				for !time.Now().After(t0) {
+					time.Sleep(200 * time.Microsecond)
+				}
+				time.Sleep(5 * time.Millisecond)
+				done := make(chan struct{})
+				go func() {
+					_ = core.Try(func() { w.n[p].Store.EnforceHaltLockExpiration(context.Background()) })
+					close(done)
+				}()
+				select {
+				case <-done:
+				case <-time.After(400 * time.Millisecond):
+				}
+				// did the expiry take effect although the commit is still in flight? (as written, the
+				// expiry round is skipped while a forwarded commit holds the halt mutex.) The halt lock
+				// pins the primary's write locks: when they are free, the lock is gone.
+				if lt := w.lockTable(p); lt["pending"] != "exclusive" && lt["write"] != "exclusive" {
+					e.res.OverlapExpiredEarly++
+					e.expiredInFlight = true
+				}
+				g.release()
+				<-done
+			}(gate)
+		}
 		pn, to := bounded("holder-transaction", 60*time.Second, func() {
 			// like SQLite's busy handler: the stream goroutine takes the write lock for a moment whenever a
 			// frame arrives (also for the holder's own frames, which it then discards)
@@ -702,8 +745,22 @@ func (e *engine) doStep(st step) {
 			}
 		})
 		tapR.reset()
+		if gate != nil {
+			gate.release()
+			e.res.Overlapped++
+		}
 		if e.callTrouble("holder transaction", pn, to) {
 			return
+		}
+		if e.expiredInFlight {
+			// bookkeeping of the expiry that already happened, BEFORE the /tx exchange is judged
+			e.expiredInFlight = false
+			if id := e.held[p]; id != 0 && w.n[p].Store.DB(w.db) != nil {
+				e.held[p] = 0
+				e.former[id] = "expired"
+				e.lastEnd[p] = "expired"
+				e.closeWindow(p, e.stepPre)
+			}
 		}
 		switch {
 		case r.Err == nil:
